@@ -83,6 +83,22 @@ CONTRACTS = [
 ]
 
 
+PIECE = 800        # elements per [...] literal (longer lists are pieces joined with ++: one huge literal overflows coqc's stack)
+PART = 4000        # cases per Definition (a group is cut into parts)
+SHARD = 24000      # cases per generated file = per coqc process
+MAX_PAR = 4        # coqc processes at a time (each may need GBs)
+SHARD_TIMEOUT = 1200
+SHARD_MEM_KB = 12 * 1024 * 1024
+
+
+def lit(items):
+    """a Gallina list of the given element texts, no [...] piece longer than PIECE"""
+    items = list(items)
+    if len(items) <= PIECE:
+        return "[" + "; ".join(items) + "]"
+    return "(" + " ++ ".join("[" + "; ".join(items[i:i + PIECE]) + "]" for i in range(0, len(items), PIECE)) + ")"
+
+
 def oracle_tables(recs, tabrecs=None):
     t = {k: [] for k in ("ParseInt", "FormatInt", "BigSetString", "BigText", "f64_to_f32", "f32_to_f64", "f64_eqb", "f64_isnan",
                          "BigFloat_Float64", "BigFloat_SetFloat64")}
@@ -109,7 +125,7 @@ def oracle_tables(recs, tabrecs=None):
         elif f == "BigFloat_SetFloat64":
             # keyed by (precision the destination was preset to, float64 bits): (value held afterwards, Acc())
             t[f].append("((%s, %s), ((%s, %s), %s))" % (zlit(r["prec"]), zlit(r["x"]), zlit(r["bf"][0]), zlit(r["bf"][1]), zlit(r["acc"])))
-    fields = "; ".join("t_%s := [%s]" % (k, "; ".join(v)) for k, v in t.items())
+    fields = ";\n  ".join("t_%s := %s" % (k, lit(v)) for k, v in t.items())
     return "Definition T : oracle_tables := {| %s |}.\nDefinition OI : oracles := table_oracles T.\n" % fields
 
 
@@ -145,104 +161,170 @@ def chunks(lst, n):
 
 
 def build_cases(recs, table):
-    """Returns (coq text, groups) where groups[i] = (group id, [records in order])."""
+    """Returns the groups of the correspondence: [(group id, [records in order], Gallina term of type list bool)], each of at most PART cases."""
     uses_o = {f["name"]: f["uses_o"] for f in table.get("functions", [])}
 
     def app(name):
         return "%s OI" % name if uses_o.get(name) else name
 
-    lines = [vlib.EVAL_HEADER,
-             "From GCNP Require Import base.GoInt base.GoNum gen.Numeric_gen model.NumCases model.NumWire.",
-             oracle_tables(recs)]
     groups = []
 
-    def group(gid, items, body):
-        n = len(groups)
-        lines.append("Definition g%d : list bool := %s." % (n, body))
-        groups.append((gid, items))
+    def group(gid, items, fun, cases):
+        """fun: Gallina function from a case to bool; cases: the case texts, parallel to items"""
+        items, cases = list(items), list(cases)
+        assert len(items) == len(cases)
+        nparts = (len(items) + PART - 1) // PART
+        for p in range(nparts):
+            sub = slice(p * PART, (p + 1) * PART)
+            groups.append((gid if nparts == 1 else "%s #%d" % (gid, p), items[sub], "map (%s) %s" % (fun, lit(cases[sub]))))
 
-    # helpers: one group per helper
     for r in recs:
         if r["k"] == "h":
             f = r["go"] if not r["intsize"] else "(fun v => %s v %d)" % (r["go"], r["intsize"])
-            cases = "; ".join("(%s, %s)" % (zlit(i), "Some %s" % zlit(o) if o is not None else "None") for i, o in zip(r["ins"], r["outs"]))
             group("helper " + r["name"], [{"in": i, "out": o} for i, o in zip(r["ins"], r["outs"])],
-                  "map (fun c => oz_eqb (res_opt (%s (fst c))) (snd c)) [%s]" % (f, cases))
+                  "fun c => oz_eqb (res_opt (%s (fst c))) (snd c)" % f,
+                  ["(%s, %s)" % (zlit(i), "Some %s" % zlit(o) if o is not None else "None") for i, o in zip(r["ins"], r["outs"])])
         elif r["k"] == "m":
             items = [{"x": x, "y": y, "r": rr} for x, y, rr in zip(r["xs"], r["ys"], r["rs"])]
             if r["ov"]:
-                cases = "; ".join("((%s, %s), (%s, %s))" % (zlit(x), zlit(y), zlit(rr), b(o)) for x, y, rr, o in zip(r["xs"], r["ys"], r["rs"], r["ov"]))
-                group("math " + r["name"], items, "map (fun c => zb_eqb (%s (fst (fst c)) (snd (fst c))) (snd c)) [%s]" % (r["name"], cases))
+                group("math " + r["name"], items, "fun c => zb_eqb (%s (fst (fst c)) (snd (fst c))) (snd c)" % r["name"],
+                      ["((%s, %s), (%s, %s))" % (zlit(x), zlit(y), zlit(rr), b(o)) for x, y, rr, o in zip(r["xs"], r["ys"], r["rs"], r["ov"])])
             else:
-                cases = "; ".join("((%s, %s), %s)" % (zlit(x), zlit(y), zlit(rr)) for x, y, rr in zip(r["xs"], r["ys"], r["rs"]))
-                group("math " + r["name"], items, "map (fun c => Z.eqb (%s (fst (fst c)) (snd (fst c))) (snd c)) [%s]" % (r["name"], cases))
-    # switches
+                group("math " + r["name"], items, "fun c => Z.eqb (%s (fst (fst c)) (snd (fst c))) (snd c)" % r["name"],
+                      ["((%s, %s), %s)" % (zlit(x), zlit(y), zlit(rr)) for x, y, rr in zip(r["xs"], r["ys"], r["rs"])])
     by = {}
     for r in recs:
         if r["k"] in ("to", "from", "w", "r"):
             by.setdefault((r["k"], r["name"]), []).append(r)
     for (k, name), rs in by.items():
-        for part, sub in enumerate(chunks(rs, 1500)):
-            gid = "%s %s #%d" % (k, name, part)
-            if k == "to":
-                if name == "convertToBigInt":
-                    def exp(r):
-                        if not r["ok"]:
-                            return "None"
-                        return "Some None" if r["nil"] else "Some (Some %s)" % zlit(r["val"])
-                    cases = "; ".join("(%s, %s)" % (goval(r["c"], r["p"]), exp(r)) for r in sub)
-                    group(gid, sub, "map (fun c => opt_eqb oz_eqb (res_opt (%s (fst c))) (snd c)) [%s]" % (app(name), cases))
-                else:
-                    cases = "; ".join("(%s, %s)" % (goval(r["c"], r["p"]), "Some (%s, %s)" % (zlit(r["val"]), b(r["nil"])) if r["ok"] else "None") for r in sub)
-                    group(gid, sub, "map (fun c => opt_eqb zb_eqb (res_opt (%s (fst c))) (snd c)) [%s]" % (app(name), cases))
-            elif k == "from":
-                cases = "; ".join("(%s, %s, %s, %s)" % (zlit(r["val"]), b(r["null"]), godst(r),
-                                                        "Some (Some %s)" % stored(r["st"]) if r["ok"] else "None") for r in sub)
-                group(gid, sub, "map (fun c => match c with (v, n, d, e) => opt_eqb (opt_eqb goval_eqb) (res_opt (%s v n d)) e end) [%s]" % (app(name), cases))
-            elif k == "w":
-                cases = "; ".join("(%s, %s)" % (zlit(r["v"]), hexlist(r["bytes"])) for r in sub)
-                group(gid, sub, "map (fun c => zl_eqb (%s (fst c)) (snd c)) [%s]" % (app(name), cases))
-            elif k == "r":
-                cases = "; ".join("(%s, %s)" % (hexlist(r["bytes"]), "Some (%s, %s)" % (zlit(r["val"]), b(r["null"])) if r["ok"] else "None") for r in sub)
-                group(gid, sub, "map (fun c => opt_eqb zb_eqb (res_opt (%s (fst c))) (snd c)) [%s]" % (app(name), cases))
+        gid = "%s %s" % (k, name)
+        if k == "to":
+            if name == "convertToBigInt":
+                def exp(r):
+                    if not r["ok"]:
+                        return "None"
+                    return "Some None" if r["nil"] else "Some (Some %s)" % zlit(r["val"])
+                group(gid, rs, "fun c => opt_eqb oz_eqb (res_opt (%s (fst c))) (snd c)" % app(name),
+                      ["(%s, %s)" % (goval(r["c"], r["p"]), exp(r)) for r in rs])
+            else:
+                group(gid, rs, "fun c => opt_eqb zb_eqb (res_opt (%s (fst c))) (snd c)" % app(name),
+                      ["(%s, %s)" % (goval(r["c"], r["p"]), "Some (%s, %s)" % (zlit(r["val"]), b(r["nil"])) if r["ok"] else "None") for r in rs])
+        elif k == "from":
+            group(gid, rs, "fun c => match c with (v, n, d, e) => opt_eqb (opt_eqb goval_eqb) (res_opt (%s v n d)) e end" % app(name),
+                  ["(%s, %s, %s, %s)" % (zlit(r["val"]), b(r["null"]), godst(r), "Some (Some %s)" % stored(r["st"]) if r["ok"] else "None") for r in rs])
+        elif k == "w":
+            group(gid, rs, "fun c => zl_eqb (%s (fst c)) (snd c)" % app(name), ["(%s, %s)" % (zlit(r["v"]), hexlist(r["bytes"])) for r in rs])
+        elif k == "r":
+            group(gid, rs, "fun c => opt_eqb zb_eqb (res_opt (%s (fst c))) (snd c)" % app(name),
+                  ["(%s, %s)" % (hexlist(r["bytes"]), "Some (%s, %s)" % (zlit(r["val"]), b(r["null"])) if r["ok"] else "None") for r in rs])
     tm = {}
     for r in recs:
         if r["k"] == "tm":
             tm.setdefault(r["name"], []).append(r)
     for name, rs in tm.items():
         if name in ("ConvertTimeToEpochMillis", "ConvertTimeToEpochDays"):
-            cases = "; ".join("((%s, %s), %s)" % (zlit(r["s"]), zlit(r["n"]), "Some %s" % zlit(r["v"]) if r["ok"] else "None") for r in rs)
-            group("time " + name, rs, "map (fun c => oz_eqb (res_opt (%s (fst c))) (snd c)) [%s]" % (name, cases))
+            group("time " + name, rs, "fun c => oz_eqb (res_opt (%s (fst c))) (snd c)" % name,
+                  ["((%s, %s), %s)" % (zlit(r["s"]), zlit(r["n"]), "Some %s" % zlit(r["v"]) if r["ok"] else "None") for r in rs])
         elif name in ("ConvertEpochMillisToTime", "ConvertEpochDaysToTime"):
-            cases = "; ".join("(%s, (%s, %s))" % (zlit(r["x"]), zlit(r["s"]), zlit(r["n"])) for r in rs)
-            group("time " + name, rs, "map (fun c => zz_eqb (%s (fst c)) (snd c)) [%s]" % (name, cases))
+            group("time " + name, rs, "fun c => zz_eqb (%s (fst c)) (snd c)" % name,
+                  ["(%s, (%s, %s))" % (zlit(r["x"]), zlit(r["s"]), zlit(r["n"])) for r in rs])
         else:
-            cases = "; ".join("(%s, %s)" % (zlit(r["x"]), "Some %s" % zlit(r["v"]) if r["ok"] else "None") for r in rs)
-            group("time " + name, rs, "map (fun c => oz_eqb (res_opt (%s (fst c))) (snd c)) [%s]" % (name, cases))
+            group("time " + name, rs, "fun c => oz_eqb (res_opt (%s (fst c))) (snd c)" % name,
+                  ["(%s, %s)" % (zlit(r["x"]), "Some %s" % zlit(r["v"]) if r["ok"] else "None") for r in rs])
     bw = [r for r in recs if r["k"] == "bw"]
     if bw:
-        group("writeBigInt (hand model)", bw, "map (fun c => zl_eqb (writeBigInt (fst c)) (snd c)) [%s]" % "; ".join("(%s, %s)" % (zlit(r["v"]), hexlist(r["bytes"])) for r in bw))
+        group("writeBigInt (hand model)", bw, "fun c => zl_eqb (writeBigInt (fst c)) (snd c)", ["(%s, %s)" % (zlit(r["v"]), hexlist(r["bytes"])) for r in bw])
     br = [r for r in recs if r["k"] == "br"]
     if br:
-        group("readBigInt (hand model)", br, "map (fun c => oz_eqb (readBigInt (fst c)) (snd c)) [%s]" % "; ".join(
-            "(%s, %s)" % (hexlist(r["bytes"]), "None" if r["null"] else "Some %s" % zlit(r["val"])) for r in br))
-    lines.append("Definition mism := Eval vm_compute in filter (fun p => negb (match snd p with [] => true | _ => false end)) [%s]." % "; ".join(
-        "(%d, false_idx 0 g%d)" % (i, i) for i in range(len(groups))))
-    lines.append("Print mism.")
-    return "\n".join(lines) + "\n", groups
+        group("readBigInt (hand model)", br, "fun c => oz_eqb (readBigInt (fst c)) (snd c)",
+              ["(%s, %s)" % (hexlist(r["bytes"]), "None" if r["null"] else "Some %s" % zlit(r["val"])) for r in br])
+    return groups
 
 
-def check_contracts(recs):
+def shard_groups(groups):
+    """Packs the groups, in order, into shards of at most about SHARD cases: [[index of group, ...], ...]"""
+    shards, cur, n = [], [], 0
+    for i, g in enumerate(groups):
+        if cur and n + len(g[1]) > SHARD:
+            shards.append(cur)
+            cur, n = [], 0
+        cur.append(i)
+        n += len(g[1])
+    if cur:
+        shards.append(cur)
+    return shards
+
+
+class CoqJobs:
+    """Generated files of one run, evaluated by several coqc processes (at most MAX_PAR at a time), all importing one compiled
+    file with the oracle tables.  A coqc that fails, is killed (memory limit) or times out is reported, never ignored."""
+
+    def __init__(self, recs, tabrecs):
+        self.tag = "C13_%d" % os.getpid()
+        self.rundir = os.path.join(vlib.COQ, "run")
+        os.makedirs(self.rundir, exist_ok=True)
+        self.files = []
+        self.tables = self.tag + "_tables"
+        self._write(self.tables, "\n".join([vlib.EVAL_HEADER, "From GCNP Require Import base.GoInt base.GoNum model.NumCases.",
+                                            oracle_tables(recs, tabrecs)]) + "\n")
+
+    def _write(self, name, text):
+        with open(os.path.join(self.rundir, name + ".v"), "w") as f:
+            f.write(text)
+        self.files.append(name)
+
+    def _coqc(self, name, timeout):
+        cmd = "ulimit -v %d; exec coqc -Q . GCNP -w -all run/%s.v" % (SHARD_MEM_KB, name)
+        return vlib.sh(cmd, cwd=vlib.COQ, timeout=timeout)
+
+    def compile_tables(self):
+        rc, out = self._coqc(self.tables, 900)
+        return rc == 0, " ".join(out.split())[-400:]
+
+    def header(self, imports):
+        return "\n".join([vlib.EVAL_HEADER, "From GCNP Require Import base.GoInt base.GoNum model.NumCases %s run.%s." % (imports, self.tables)]) + "\n"
+
+    def run(self, jobs):
+        """jobs: [(name, text)]; returns {name: (status, flat output)} with status ok | failed | timeout | killed"""
+        from concurrent.futures import ThreadPoolExecutor
+        for name, text in jobs:
+            self._write(name, text)
+
+        def one(name):
+            rc, out = self._coqc(name, SHARD_TIMEOUT)
+            flat = " ".join(out.split())
+            if rc == 0:
+                return name, ("ok", flat)
+            if rc == 124:
+                return name, ("timeout", "no answer within %d s" % SHARD_TIMEOUT)
+            if rc < 0 or rc in (137, 139) or "Out of memory" in flat or "Stack overflow" in flat:
+                return name, ("killed", "rc=%s %s" % (rc, flat[-300:]))
+            return name, ("failed", "rc=%s %s" % (rc, flat[-400:]))
+        with ThreadPoolExecutor(max_workers=MAX_PAR) as ex:
+            return dict(ex.map(one, [n for n, _ in jobs]))
+
+    def cleanup(self, keep=()):
+        for name in self.files:
+            for ext in (".v", ".vo", ".glob", ".vok", ".vos", ".aux"):
+                if ext == ".v" and name in keep:
+                    continue          # a file that did not evaluate stays for diagnosis
+                for p in (os.path.join(self.rundir, name + ext), os.path.join(self.rundir, "." + name + ext)):
+                    try:
+                        os.remove(p)
+                    except OSError:
+                        pass
+
+
+def contracts_text(jobs):
     """Instantiates every oracle premise of the C13 theorems on all answers the real standard library gave in this run
-    (coq/model/NumContracts.v, evaluated by vm_compute). Returns (report list, broken list)."""
-    tabrecs = {}
-    text = "\n".join([vlib.EVAL_HEADER, "From GCNP Require Import base.GoInt base.GoNum model.NumCases model.NumContracts.",
-                      oracle_tables(recs, tabrecs),
-                      "Definition contracts := Eval vm_compute in contract_verdicts T.", "Print contracts."]) + "\n"
-    rc, out = vlib.coq_eval("Contracts_C13", text)
-    flat = " ".join(out.split())
-    if rc != 0 or "contracts =" not in flat:
-        return [], ["the oracle contracts of the C13 theorems could not be evaluated on the oracle tables: " + flat[-400:]]
+    (coq/model/NumContracts.v, evaluated by vm_compute)."""
+    return jobs.header("model.NumContracts") + "Definition contracts := Eval vm_compute in contract_verdicts T.\nPrint contracts.\n"
+
+
+def contracts_verdict(status, flat, tabrecs):
+    """Returns (report list, broken list)."""
+    if status != "ok" or "contracts =" not in flat:
+        return [], ["the oracle contracts of the C13 theorems could not be evaluated on the oracle tables (coqc %s): %s" % (status, flat[-400:])]
     verdicts = re.findall(r"\((\d+), \[([0-9; ]*)\]\)", flat.split("contracts =", 1)[1])
     if len(verdicts) != len(CONTRACTS):
         return [], ["oracle contract evaluation returned %d verdicts for %d premises: %s" % (len(verdicts), len(CONTRACTS), flat[-300:])]
@@ -278,6 +360,15 @@ def check(run):
     run.add_proof(pr)
     if not pr["ok"]:
         broken.append("props/C13.v or a dependency no longer checks: %s %s" % (pr["failed_at"], pr["errors"]))
+    if run.tier == "thorough" and pr["ok"]:
+        # re-check the compiled property file and everything it depends on with the independent checker
+        with vlib.Lock():
+            crc, cout = vlib.coqchk("C13")
+        ctail = " ".join(cout.strip().split("\n")[-12:])
+        run.coverage["coqchk"] = {"rc": crc, "tail": ctail[-1500:]}
+        run.coverage["checker_cmd"] += " ; coqchk -silent -o -Q . GCNP GCNP.props.C13"
+        if crc != 0:
+            broken.append("coqchk rejects props/C13.vo: %s" % ctail[-400:])
     run.coverage["trusted_base"] += [
         "oracles (coq/base/GoNum.v, Section variable O): strconv.ParseInt/FormatInt, big.Int SetString/Text, IEEE-754 float64<->float32 conversion and ==, "
         "math.IsNaN, big.Float Float64/SetFloat64+Acc (per preset precision of the destination), time Parse/Format; each theorem that needs one states its "
@@ -314,49 +405,86 @@ def check(run):
     summ = next((r for r in recs if r["k"] == "sum"), None)
 
     # ---- (0) the premises about the standard library that the theorems carry, instantiated on everything the real library answered
+    # ---- (a) correspondence: regenerated Gallina functions (and the hand model of the varint bytes) vs the compiled code.
+    # Both are generated files evaluated by coqc (vm_compute): one file with the oracle tables, compiled once; the correspondence cut into
+    # shards of at most SHARD cases (Definitions of at most PART cases, list literals of at most PIECE elements), at most MAX_PAR coqc at a time.
     contract_report = []
+    corr = 0
+    mism_found = []
+    gen_ok = False
+    shard_report = []
     if recs:
+        targets = ["model/NumCases.vo", "model/NumContracts.vo"]
+        if "go2coq" not in fails:
+            targets += ["gen/Numeric_gen.vo", "model/NumWire.vo"]
         with vlib.Lock():
-            ok_c, log = vlib.coq_make(["model/NumCases.vo", "model/NumContracts.vo"])
-        if not ok_c:
-            broken.append("model/NumContracts.v does not compile: " + " ".join(l for l in log.split("\n") if "Error" in l)[:400])
-        else:
-            contract_report, cbroken = check_contracts(recs)
-            broken += cbroken
+            ok_m, log = vlib.coq_make(targets)
+            gen_ok = "go2coq" not in fails and os.path.exists(os.path.join(vlib.COQ, "gen", "Numeric_gen.vo")) and ok_m
+            models_ok = ok_m or vlib.coq_make(targets[:2])[0]
+        if not ok_m:
+            broken.append("%s does not compile: %s" % (" / ".join(targets), " ".join(l for l in log.split("\n") if "Error" in l)[:400]))
+        tabrecs = {}
+        jobs = CoqJobs(recs, tabrecs)
+        keep = []
+        try:
+            tok, tlog = jobs.compile_tables() if models_ok else (False, "model/NumCases.v does not compile")
+            if not tok:
+                broken.append("the oracle tables of this run do not compile (run/%s.v): %s" % (jobs.tables, tlog))
+                keep.append(jobs.tables)
+            else:
+                todo = [(jobs.tag + "_contracts", contracts_text(jobs))]
+                groups, shards = [], []
+                if gen_ok:
+                    try:
+                        groups = build_cases(recs, table)
+                        shards = shard_groups(groups)
+                    except Exception as e:  # an unexpected record shape is a broken tie, not a crash
+                        groups, shards = [], []
+                        broken.append("cannot render the cases for the model: %r" % (e,))
+                for si, gis in enumerate(shards):
+                    body = ["Definition g%d : list bool := %s." % (k, groups[gi][2]) for k, gi in enumerate(gis)]
+                    body.append("Definition mism := Eval vm_compute in filter (fun p => negb (match snd p with [] => true | _ => false end)) [%s]." % "; ".join(
+                        "(%d, false_idx 0 g%d)" % (k, k) for k in range(len(gis))))
+                    body.append("Print mism.")
+                    todo.append(("%s_shard%d" % (jobs.tag, si), jobs.header("gen.Numeric_gen model.NumWire") + "\n".join(body) + "\n"))
+                res = jobs.run(todo)
+                status, flat = res[todo[0][0]]
+                contract_report, cbroken = contracts_verdict(status, flat, tabrecs)
+                broken += cbroken
+                if cbroken and status != "ok":
+                    keep.append(todo[0][0])
+                for si, gis in enumerate(shards):
+                    name = todo[1 + si][0]
+                    status, flat = res[name]
+                    ncases = sum(len(groups[gi][1]) for gi in gis)
+                    what = "shard %d of %d (%s: groups '%s' .. '%s', %d cases)" % (si, len(shards), name, groups[gis[0]][0], groups[gis[-1]][0], ncases)
+                    shard_report.append({"shard": si, "file": "run/%s.v" % name, "groups": len(gis), "cases": ncases, "status": status})
+                    if status != "ok" or "mism =" not in flat:
+                        keep.append(name)
+                        broken.append("correspondence %s was not evaluated: coqc %s: %s" % (what, status if status != "ok" else "printed no verdict", flat[-400:]))
+                        continue
+                    corr += ncases
+                    tail = flat.split("mism =", 1)[1]
+                    if not tail.strip().startswith("[]"):
+                        found = 0
+                        for k, idxs in re.findall(r"\((\d+), \[([0-9; ]*)\]\)", tail):
+                            gid, items, _ = groups[gis[int(k)]]
+                            for i in [int(x) for x in idxs.split(";") if x.strip()][:5]:
+                                mism_found.append({"group": gid, "case": items[i]})
+                                found += 1
+                        broken.append("correspondence: regenerated Gallina definitions disagree with the compiled code in %s, e.g. %s" % (
+                            what, json.dumps(mism_found[-found:][:3])[:700] if found else tail[:300]))
+        finally:
+            jobs.cleanup(keep)
     run.coverage["oracle_contracts_checked"] = contract_report
+    run.coverage["correspondence_shards"] = shard_report
     if contract_report:
         run.note("oracle contracts instantiated on the real library's answers: " + ", ".join(
             "%s %d" % (c["hypothesis"], c["instances_checked"]) for c in contract_report) +
             "; failing: %d" % sum(c["failing"] for c in contract_report))
-
-    # ---- (a) correspondence: regenerated Gallina functions (and the hand model of the varint bytes) vs the compiled code
-    corr = 0
-    mism_found = []
-    gen_ok = False
-    if "go2coq" not in fails:
-        with vlib.Lock():
-            gen_ok, log = vlib.coq_make(["gen/Numeric_gen.vo", "model/NumCases.vo", "model/NumWire.vo"])
-        if not gen_ok:
-            broken.append("gen/Numeric_gen.v does not compile: " + " ".join(l for l in log.split("\n") if "Error" in l)[:400])
-    if recs and gen_ok:
-        try:
-            text, groups = build_cases(recs, table)
-        except Exception as e:  # an unexpected record shape is a broken tie, not a crash
-            text, groups = None, []
-            broken.append("cannot render the cases for the model: %r" % (e,))
-        if text:
-            corr = sum(len(g[1]) for g in groups)
-            rc, out = vlib.coq_eval("Cases_C13", text)
-            flat = " ".join(out.split())
-            if rc != 0:
-                broken.append("correspondence file for C13 does not evaluate: " + flat[-500:])
-            elif "mism = []" not in flat:
-                for gi, idxs in re.findall(r"\((\d+), \[([0-9; ]*)\]\)", flat):
-                    gid, items = groups[int(gi)]
-                    for i in [int(x) for x in idxs.split(";") if x.strip()][:5]:
-                        mism_found.append({"group": gid, "case": items[i]})
-                broken.append("correspondence: regenerated Gallina definitions disagree with the compiled code on %d group(s), e.g. %s" % (
-                    len(set(m["group"] for m in mism_found)) or 1, json.dumps(mism_found[:3])[:700] if mism_found else flat[:300]))
+    if shard_report:
+        run.note("correspondence: %d cases in %d shard(s) (at most %d cases per coqc process, %d processes at a time), %d evaluated" % (
+            sum(x["cases"] for x in shard_report), len(shard_report), SHARD, MAX_PAR, corr))
 
     # ---- (b) the property's own predicate on the implementation (directed search over boundary values, all pairs)
     findings = [r for r in recs if r["k"] == "viol"]
